@@ -178,7 +178,7 @@ def simulate(workdir, module, cfg, num, depth, seed=0, timeout=1200, env=None, t
     return behs, res
 
 
-_sim_state = re.compile(r"\\\* (?P<lab><[^>]*>|[^\n]*)\nSTATE_(\d+) ==\n", re.M)
+_sim_state = re.compile(r"\\\* (?P<lab><[^>]*>|[^\n]*)\nSTATE_(\d+) ==[ ]*\n", re.M)
 
 
 def parse_sim_file(txt):
@@ -210,14 +210,14 @@ def dump_dot(workdir, module, cfg, timeout=1200, env=None, workers=1):
     if not os.path.exists(dotf):
         raise TLCError("no dot dump produced:\n" + out[-3000:])
     nodes, edges, inits = {}, [], set()
-    node_re = re.compile(r'^(-?\d+) \[label="(.*)"(?:,style = filled)?\];?$')
-    edge_re = re.compile(r'^(-?\d+) -> (-?\d+) \[label="([^"]*)"')
+    node_re = re.compile(r'^(-?\d+) \[label="((?:[^"\\]|\\.)*)"')
+    edge_re = re.compile(r'^(-?\d+) -> (-?\d+) \[label="((?:[^"\\]|\\.)*)"')
     with open(dotf) as fh:
         for line in fh:
             line = line.rstrip("\n")
             m = edge_re.match(line)
             if m:
-                edges.append((m.group(1), m.group(2), m.group(3)))
+                edges.append((m.group(1), m.group(2), m.group(3).replace('\\"', '"').replace("\\\\", "\\")))
                 continue
             m = node_re.match(line)
             if m:
